@@ -1202,7 +1202,7 @@ pub fn run(ctx: &Ctx) -> i32 {
     reports.push(simple_suite("extra_information_chain_lengths", true, sweep_pei_lengths));
     let cases = ctx.tier.pick(1_000_000u64, 20_000_000u64);
     reports.push(tape_suite(ctx, "random_cross_products", cases, 260, &random_header_case));
-    let cfg = PicCfg { max_dim: 64, max_fixed_mbs: 48, budget: 400, extreme_aspect: false, ..PicCfg::quick() };
+    let cfg = PicCfg { max_dim: 64, max_fixed_mbs: 48, budget: 400, extreme_aspect: true, ..PicCfg::quick() };
     let scases = ctx.tier.pick(20_000u64, 300_000u64);
     reports.push(tape_suite(ctx, "decoded_picture_reports_header", scases, 4096, &move |g| state_case(g, &cfg)));
     finish(
@@ -1229,7 +1229,7 @@ pub fn replay(suite: &str, case: &Value) -> Option<Verdict> {
     match suite {
         "random_cross_products" => Some(random_header_case(&mut Gen::new(&super::tape_of(case)?))),
         "decoded_picture_reports_header" => {
-            let cfg = PicCfg { max_dim: 64, max_fixed_mbs: 48, budget: 400, extreme_aspect: false, ..PicCfg::quick() };
+            let cfg = PicCfg { max_dim: 64, max_fixed_mbs: 48, budget: 400, extreme_aspect: true, ..PicCfg::quick() };
             Some(state_case(&mut Gen::new(&super::tape_of(case)?), &cfg))
         }
         "sorenson_custom8_all_sizes" => {
